@@ -200,6 +200,51 @@ func (m *monitor) Block(c *stk.BlockCtx) *stk.Violation {
 			}
 		}
 	}
+	// unlock exactly once: what the pending list of the previous state names for this height becomes withdrawable in
+	// this block, once, and nothing else does (block 1 runs no block-end staking hooks; an unstake with a maturity
+	// of zero blocks would add to this height's list after the previous state was read: not judged)
+	minMat := maturity
+	if c.H > 1 && minMat >= 1 {
+		due, out := map[string]*big.Int{}, map[string]*big.Int{}
+		for _, e := range c.Prev.Mature[c.H] {
+			add(due, e.Deleg, e.Amount)
+		}
+		for _, t := range c.Txs {
+			if t.Kind == "WITHDRAW" && t.OK() {
+				add(out, t.Deleg, t.Amount)
+			}
+		}
+		ds := map[string]bool{}
+		for d := range c.Prev.Bounded {
+			ds[d] = true
+		}
+		for d := range c.Cur.Bounded {
+			ds[d] = true
+		}
+		for d := range due {
+			ds[d] = true
+		}
+		var sortedD []string
+		for d := range ds {
+			sortedD = append(sortedD, d)
+		}
+		sort.Strings(sortedD)
+		for _, d := range sortedD {
+			exp := new(big.Int).Sub(new(big.Int).Add(get(c.Prev.Bounded, d), get(due, d)), get(out, d))
+			got := get(c.Cur.Bounded, d)
+			if got.Cmp(exp) != 0 {
+				class := "unlock-missing"
+				if got.Cmp(exp) > 0 {
+					class = "unlocked-more-than-due"
+				}
+				return stk.Violate("maturity", class, "height %d: delegator %s: withdrawable amount went from %s to %s; the pending list named %s as maturing at this height and its successful withdrawals in this block sum to %s, so %s was expected",
+					c.H, d, get(c.Prev.Bounded, d), got, get(due, d), get(out, d), exp)
+			}
+			if get(due, d).Sign() > 0 {
+				m.feats["unlock-at-maturity-checked"]++
+			}
+		}
+	}
 	// penalties: reductions of locked amounts in a verdict block that transactions do not explain
 	for val := range c.Cur.Frozen {
 		if !verdictAt(c, val) {
